@@ -714,14 +714,14 @@ class XsdGroup(XsdComponent, MutableSequence[ModelParticleType],
         elif self.model == 'choice':
             if all(e.is_substitute(other) for e in self):
                 return True
-            return any(e.is_restriction(other, False) for e in self)
+            return all(e.max_occurs == 0 or e.is_restriction(other, False) for e in self)
         else:
             min_occurs = 0
             max_occurs: Optional[int] = 0
             for item in self.iter_model():
                 if isinstance(item, XsdGroup):
                     return False
-                elif item.min_occurs == 0 or item.is_restriction(other, False):
+                elif item.max_occurs == 0 or item.is_restriction(other, False):
                     min_occurs += item.min_occurs
                     if max_occurs is not None:
                         if item.max_occurs is None:
